@@ -29,6 +29,8 @@ type Net struct {
 	history []string // op lines of this scenario (the replay)
 	mon     *Monitors
 	lastAdvOp string
+	helped map[string]bool // scenario bookkeeping
+	afterDeliver func(n *RealNode, f *Flight) // scenario hook: called after every delivery of traffic that did not come from the adversary
 	now      float64         // virtual time (unit: the election timeout of view 0)
 	deadline map[int]float64 // per correct node: when its election timer fires
 	timely   bool            // stabilised phase: no concurrent cancellations injected
@@ -234,6 +236,9 @@ func (net *Net) deliverFlight(f *Flight) {
 	net.event(n, "deliver "+enc, func() (string, string) { return n.Deliver(f.Raw) })
 	n.CurProposalView = nil
 	net.mon.afterDeliver(n, f, enc)
+	if net.afterDeliver != nil && !f.Byz {
+		net.afterDeliver(n, f)
+	}
 }
 
 func (net *Net) timeout(n *RealNode, stale bool) {
